@@ -692,13 +692,15 @@ class C06(Prop):
         if self.MUTANT_ACTIVE and C06.TIMEOUTS >= 3 and case["kind"] in ("hillclimb", "sorting_hillclimb"):
             # self-test only: the installed mutant has already hung three times, do not wait for every case
             raise TimeoutError("optimiser does not terminate under this mutant (repeated timeouts)")
-        old = signal.signal(signal.SIGALRM, on_alarm)
-        signal.setitimer(signal.ITIMER_REAL, self.IMPL_TIMEOUT_S)
+        from harness.core import cpu_deadline
         try:
-            return self._run_impl(case)
-        finally:
-            signal.setitimer(signal.ITIMER_REAL, 0)
-            signal.signal(signal.SIGALRM, old)
+            # CPU-time budget (4 x the nominal wall figure) with a wall backstop: load on the machine must not
+            # turn a correct optimiser into a timeout
+            with cpu_deadline(self.IMPL_TIMEOUT_S * 4, wall_factor=30, what="optimiser"):
+                return self._run_impl(case)
+        except TimeoutError:
+            C06.TIMEOUTS += 1
+            raise
 
     def _run_impl(self, case):
         m = _mods()
